@@ -56,7 +56,7 @@ _TOTAL_NOTE = ("Trusted: the isolation worker's wall-clock limit (3 s per case, 
 
 FAMILIES["C09"] = dict(
     famtag="C09",
-    files=["spec/cases/C09_edges.ndjson"],
+    files=["spec/cases/C09_edges.ndjson", "spec/cases/C10_cyclic.ndjson"],
     g=[G("MC_C09", "MC_C09_quick.cfg", "MC_C09_thorough.cfg")],
     v=[dict(profile="mix", n={"quick": 6000, "thorough": 120000}, args=["-nulls"]),
        dict(profile="calls", n={"quick": 2000, "thorough": 40000}, args=["-nulls"])],
@@ -68,7 +68,7 @@ FAMILIES["C09"] = dict(
 )
 FAMILIES["C10"] = dict(
     famtag="C10",
-    files=["spec/cases/C09_edges.ndjson"],
+    files=["spec/cases/C09_edges.ndjson", "spec/cases/C10_cyclic.ndjson"],
     g=[G("MC_C09", "MC_C09_quick.cfg", "MC_C09_thorough.cfg"), G("MC_C10B", "MC_C10B_quick.cfg", "MC_C10B_thorough.cfg")],
     v=[dict(profile="mix", n={"quick": 6000, "thorough": 120000}, args=["-nulls"]),
        dict(profile="calls", n={"quick": 2000, "thorough": 40000}),
@@ -104,7 +104,7 @@ FAMILIES["C05"] = dict(
 )
 FAMILIES["C07"] = dict(
     models=_API_MODELS,
-    g=[G("MC_C07", "MC_C07_quick.cfg", "MC_C07_thorough.cfg")],
+    g=[G("MC_C07", "MC_C07_quick.cfg", "MC_C07_thorough.cfg"), G("MC_C07F", "MC_C07F_quick.cfg", "MC_C07F_thorough.cfg")],
     v=[dict(profile="transform", n={"quick": 3000, "thorough": 60000}, args=["-nulls", "-shared"]),
        dict(profile="mix", famtag="C07mix", n={"quick": 4000, "thorough": 80000}, args=["-nulls", "-shared"])],
     hist=dict(n={"quick": 400, "thorough": 8000}),
@@ -187,8 +187,9 @@ FAMILIES["C04"] = dict(
 FAMILIES["C11"] = dict(
     famtag="C11",
     trace_module="TraceDenote",
-    g=[G("MC_C11", "MC_C11_quick.cfg", "MC_C11_thorough.cfg")],
-    v=[dict(profile="jsontext", n={"quick": 5000, "thorough": 100000})],
+    trace_by_ev={"Num": "TraceNum"},
+    g=[G("MC_C11", "MC_C11_quick.cfg", "MC_C11_thorough.cfg"), G("MC_C11N", "MC_C11N_quick.cfg", "MC_C11N_thorough.cfg")],
+    v=[dict(profile="jsontext", n={"quick": 5000, "thorough": 100000}), dict(profile="numlits", n={"quick": 3000, "thorough": 60000})],
     rule="a case is a candidate JSON text; non-trivial when it was accepted and evaluated to a value that the specification's denotation (or, for numerals outside the exact model, the reference decoder) confirms, or was rejected as malformed; distinct by bytes",
     level_text=("The denotation of a JSON text is defined in TLA+ alone: JSyntax!Parse (escape decoding incl. \\uXXXX and surrogate pairing, numeral grammar and range rule, nested constructors) composed with the literal/constructor rules of JEval. "
                 "TLC checks on the specification that single- and double-quoted forms denote the same value, that string literals denote strings or are rejected, and that whitespace is insignificant, for every enumerated text: all string literals of <= 3 units over 27 units "
